@@ -335,6 +335,10 @@ func c19Cases(env vk.Env) []vk.Case {
 		i := i
 		cs = append(cs, vk.Case{ID: fmt.Sprintf("commit/%d", i), Run: func(t *vk.T) { c19Commit(t, i) }})
 	}
+	for i := 0; i < env.Pick(4, 60); i++ {
+		i := i
+		cs = append(cs, vk.Case{ID: fmt.Sprintf("composite/%d", i), Run: func(t *vk.T) { c19Composite(t, i) }})
+	}
 	return cs
 }
 
